@@ -96,17 +96,19 @@ func SplitLines(b []byte) [][]byte {
 	return out
 }
 
-// MakeCase runs the pipeline and prints the Coq term for (input, observed output).
-func MakeCase(in PipeIn, workdir string, caseNo int) Case {
+// Prepare fills the expression strings of the configuration from the templates.
+func Prepare(in *PipeIn) {
 	in.Cfg.Extract = tmplString(in.Extract)
 	in.Cfg.Ignore = nil
 	for _, ig := range in.Ignore {
 		in.Cfg.Ignore = append(in.Cfg.Ignore, tmplString(ig))
 	}
-	dir := filepath.Join(workdir, fmt.Sprintf("pipe%06d", caseNo))
-	res := runIn(in, dir)
-	oracle, names, _ := Oracle(in.Cfg.Matcher)
+}
 
+// InputCoq prints the Coq term of a case input. For a scripted reader the stream is what the reader
+// actually delivered (res), or the whole stream when res is nil.
+func InputCoq(in PipeIn, dir string, res *Result) (string, int) {
+	oracle, names, _ := Oracle(in.Cfg.Matcher)
 	var srcs, orc []string
 	total := 0
 	for i, s := range in.Sources {
@@ -116,7 +118,7 @@ func MakeCase(in PipeIn, workdir string, caseNo int) Case {
 		}
 		stream, _ := hex.DecodeString(s.Stream)
 		rerr := false
-		if in.Cfg.Mode == "reader" && res.Completed && i < len(res.Delivered) {
+		if res != nil && in.Cfg.Mode == "reader" && res.Completed && i < len(res.Delivered) {
 			stream, _ = hex.DecodeString(res.Delivered[i])
 			rerr = res.ReadErr[i]
 		}
@@ -145,6 +147,21 @@ func MakeCase(in PipeIn, workdir string, caseNo int) Case {
 	inCoq := fmt.Sprintf("{| i_srcs := %s; i_names := %s; i_extract := %s; i_ignore := %s; i_oracle := %s; i_cfg := (%d,%d,%d,%d); i_ordered := %s |}",
 		CoqList(srcs), CoqList(nms), tmplCoq(in.Extract), CoqList(igs), CoqList(orc),
 		in.Cfg.Batch, in.Cfg.Workers, in.Cfg.Readers, in.Cfg.Buffer, B(ordered))
+	return inCoq, total
+}
+
+// RunLoopFor runs the aggregation loop for a pipeline input.
+func RunLoopFor(in PipeIn, dir string, renderDelayUs, sampleDelayUs int) LoopResult {
+	Prepare(&in)
+	return RunLoopDir(in.Cfg, in.Sources, dir, renderDelayUs, sampleDelayUs)
+}
+
+// MakeCase runs the pipeline and prints the Coq term for (input, observed output).
+func MakeCase(in PipeIn, workdir string, caseNo int) Case {
+	Prepare(&in)
+	dir := filepath.Join(workdir, fmt.Sprintf("pipe%06d", caseNo))
+	res := runIn(in, dir)
+	inCoq, total := InputCoq(in, dir, &res)
 
 	var sorted, order []string
 	fullName := func(m MatchObs) string {
@@ -313,10 +330,10 @@ func genStream(r *Rng, nlines int, mk func() []byte) []byte {
 
 func genCfg(r *Rng) Config {
 	return Config{
-		Batch:   Pick(r, []int{1, 1, 2, 3, 7, 1000}),
-		Workers: Pick(r, []int{1, 1, 2, 3, 4, 8}),
-		Readers: Pick(r, []int{1, 1, 2, 3, 4}),
-		Buffer:  Pick(r, []int{1, 1, 2, 4}),
+		Batch:     Pick(r, []int{1, 1, 2, 3, 7, 1000}),
+		Workers:   Pick(r, []int{1, 1, 2, 3, 4, 8}),
+		Readers:   Pick(r, []int{1, 1, 2, 3, 4}),
+		Buffer:    Pick(r, []int{1, 1, 2, 4}),
 		DelaySeed: r.U64(),
 	}
 }
